@@ -14,6 +14,7 @@ from .facts import callee
 from .flow import ExprBuilder, cfg_of, canon, walk, fmt_expr, relations_at, return_expr
 from .logic import Ctx, uncast, is_call, const_of
 from .r_a6 import strip_ptr
+from .inline import views
 
 BYTES = "bytes::Bytes"
 
@@ -76,18 +77,38 @@ def run(facts):
                         res.ok(key, b.loc(bi, si), how)
                     else:
                         res.bad(key, b.loc(bi, si), "handle built from mismatched parts: " + bad)
-    res.floor("bytes_aggregates", n, 10)
+    res.floor("bytes_aggregates", n, 7)
     check_slice(res, facts)
     check_slice_ref(res, facts)
     check_empty_splits(res, facts)
     return res
 
 
+def with_fallback(res, facts, b, key, probs_fn, how, keep=()):
+    """run a shape check on the function as written; before reporting, retry on the view with its crate-local
+    helpers inlined (a helper extraction must not change the verdict)"""
+    probs = probs_fn(b)
+    note = ""
+    if probs:
+        for ib in views(facts, b, keep_names=keep):
+            if not probs_fn(ib):
+                probs, note = [], " (after inlining %s)" % ", ".join(x.rsplit("::", 1)[-1] for x in ib._cache["inlined_from"][:4])
+                break
+    if probs:
+        res.bad(key, b.loc(), "; ".join(probs))
+    else:
+        res.ok(key, b.loc(), how + note, nontrivial=True)
+
+
 def check_slice(res, facts):
     l = facts.by_id.get("bytes::Bytes::slice", [])
     if len(l) != 1:
         raise RuleError("Bytes::slice not found")
-    b = l[0]
+    with_fallback(res, facts, l[0], "bytes::Bytes::slice|bounds", lambda b: slice_probs(facts, b),
+                  "bounds mapped (Included/Excluded/Unbounded) correctly; len = end - begin; ptr += begin; every result after both range checks")
+
+
+def slice_probs(facts, b):
     eb = ExprBuilder(b, facts, inline=False)
     # find the two phi variables: begin and end, from the guards `begin <= end`, `end <= len`
     writes = {}
@@ -95,7 +116,6 @@ def check_slice(res, facts):
         for si, s in enumerate(blk["stmts"]):
             if s["k"] == "assign" and s["pl"]["p"] and isinstance(s["pl"]["p"][-1], dict) and s["pl"]["p"][-1].get("adt") == BYTES:
                 writes[s["pl"]["p"][-1]["n"]] = (bi, si, eb.rvalue(s["rv"], (bi, si), 0))
-    key = "bytes::Bytes::slice|bounds"
     probs = []
     if "len" not in writes or "ptr" not in writes:
         probs.append("slice does not set len and ptr of the clone")
@@ -154,10 +174,7 @@ def check_slice(res, facts):
                     probs.append("a result is returned (bb%d) without the check begin <= end" % bi)
                 if not (ctx.le(end, lenx) or any(ctx.le(end, x) for x in walk(end) if is_call(x, "len"))):
                     probs.append("a result is returned (bb%d) without the check end <= len: an out-of-range (empty) range is accepted silently" % bi)
-    if probs:
-        res.bad(key, b.loc(), "; ".join(probs))
-    else:
-        res.ok(key, b.loc(), "bounds mapped (Included/Excluded/Unbounded) correctly; len = end - begin; ptr += begin", nontrivial=True)
+    return probs
 
 
 def check_slice_ref(res, facts):
@@ -212,33 +229,40 @@ def check_empty_splits(res, facts):
         l = facts.by_id.get("bytes::Bytes::" + name, [])
         if len(l) != 1:
             raise RuleError("Bytes::%s not found" % name)
-        b = l[0]
-        eb = ExprBuilder(b, facts, inline=True)
-        key = "bytes::Bytes::%s|empty results keep the address" % name
-        probs = []
-        sites = []
-        for bi, t in b.calls():
-            fn = callee(t)
-            if fn and fn["name"] == "new_empty_with_ptr":
-                loc = (bi, len(b.blocks[bi]["stmts"]))
-                arg = strip_ptr(canon(eb.operand(t["args"][0], loc)))
-                ctx = Ctx(b, bi, facts)
-                at_len = ctx.eq(("param", 2), ("field", ("deref", ("param", 1)), "len"))
-                at_zero = ctx.eq(("param", 2), ("const", 0))
-                sites.append((bi, arg, at_len, at_zero))
-        if len(sites) != 2:
-            probs.append("expected two empty-result sites (at == len, at == 0), found %d" % len(sites))
-        selfptr = ("field", ("deref", ("param", 1)), "ptr")
-        for (bi, arg, at_len, at_zero) in sites:
-            moved = (is_call(arg, "wrapping_add") or is_call(arg, "add")) and strip_ptr(arg[2][0]) == selfptr and arg[2][1] == ("param", 2)
-            same = arg == selfptr
-            if at_len and not moved:
-                probs.append("at == len: the empty part must sit at self.ptr + at, found %s" % fmt_expr(arg)[:60])
-            elif at_zero and not at_len and not same:
-                probs.append("at == 0: the empty part must sit at self.ptr, found %s" % fmt_expr(arg)[:60])
-            elif not at_len and not at_zero:
-                probs.append("empty result built outside the at == len / at == 0 cases")
-        if probs:
-            res.bad(key, b.loc(), "; ".join(probs))
+        with_fallback(res, facts, l[0], "bytes::Bytes::%s|empty results keep the address" % name, lambda b: empty_split_probs(facts, b),
+                      "at == len -> empty at self.ptr + at; at == 0 -> empty at self.ptr", keep=("new_empty_with_ptr",))
+
+
+def empty_split_probs(facts, b):
+    eb = ExprBuilder(b, facts, inline=True)
+    probs = []
+    sites = []
+    selfptr = ("field", ("deref", ("param", 1)), "ptr")
+    selflen = ("field", ("deref", ("param", 1)), "len")
+    at = ("param", 2)
+    for bi, t in b.calls():
+        fn = callee(t)
+        if fn and fn["name"] == "new_empty_with_ptr" and not b.blocks[bi]["cleanup"]:
+            loc = (bi, len(b.blocks[bi]["stmts"]))
+            arg = strip_ptr(canon(eb.operand(t["args"][0], loc)))
+            ctx = Ctx(b, bi, facts)
+            sites.append((bi, arg, ctx, ctx.eq(at, selflen), ctx.eq(at, ("const", 0))))
+    if len(sites) != 2:
+        probs.append("expected two empty-result sites (at == len, at == 0), found %d" % len(sites))
+    for (bi, arg, ctx, at_len, at_zero) in sites:
+        if arg == selfptr:
+            off = ("const", 0)
+        elif (is_call(arg, "wrapping_add") or is_call(arg, "add")) and strip_ptr(arg[2][0]) == selfptr:
+            off = canon(uncast(arg[2][1]))
         else:
-            res.ok(key, b.loc(), "at == len -> empty at self.ptr + at; at == 0 -> empty at self.ptr", nontrivial=True)
+            probs.append("the empty part is not placed relative to self.ptr: %s" % fmt_expr(arg)[:60])
+            continue
+        if at_len:
+            if not (off == at or off == selflen or ctx.eq(off, at)):
+                probs.append("at == len: the empty part must sit at self.ptr + at, found offset %s" % fmt_expr(off)[:40])
+        elif at_zero:
+            if not (const_of(off) == 0 or off == at):
+                probs.append("at == 0: the empty part must sit at self.ptr, found offset %s" % fmt_expr(off)[:40])
+        else:
+            probs.append("empty result built outside the at == len / at == 0 cases")
+    return probs
